@@ -566,7 +566,7 @@ func (c *Ctx) judgeFailureRegion(fn *ssa.Function, call *ssa.Call, e ssa.Value, 
 			if !tested && r.Block() == call.Block() && !returnsAfter(call, r) {
 				continue
 			}
-			if fn.Parent() != nil && !hasErr {
+			if (fn.Parent() != nil || c.errOutParam(fn) != nil) && !hasErr {
 				// deferred closure idiom: must store into the parent's error cell
 				if !c.closureReportsError(fn, st, e) {
 					okAll = false
@@ -724,13 +724,77 @@ func isPhi(v ssa.Value) bool { _, ok := v.(*ssa.Phi); return ok }
 // closureReportsError: inside a deferred closure, every path from the failure
 // start to the closure's exit stores an e-derived/fresh error into a captured
 // error cell, or passes the edge on which that cell is already non-nil.
+// errOutParam: fn is an unexported cleanup helper without an error result that
+// reports through a parameter of type *error, and at every call site in the
+// library (there is at least one) that parameter is the address of an error
+// result of the caller which is read back after the deferred calls ran —
+// `defer closeInto(f, &err)`.
+func (c *Ctx) errOutParam(fn *ssa.Function) *ssa.Parameter {
+	if fn.Parent() != nil || fn.Object() == nil || fn.Object().Exported() {
+		return nil
+	}
+	var out *ssa.Parameter
+	idx := -1
+	for k, p := range fn.Params {
+		if pt, ok := p.Type().Underlying().(*types.Pointer); ok && isErrorType(pt.Elem()) {
+			if out != nil {
+				return nil
+			}
+			out, idx = p, k
+		}
+	}
+	if out == nil {
+		return nil
+	}
+	node := c.P.CallGraph().Nodes[fn]
+	if node == nil {
+		return nil
+	}
+	sites := 0
+	for _, in := range node.In {
+		if in.Site == nil || !c.P.InLib(in.Caller.Func) {
+			continue
+		}
+		args := ir.CallArgs(in.Site)
+		if idx >= len(args) {
+			return nil
+		}
+		switch a := args[idx].(type) {
+		case *ssa.Alloc:
+			// defer helper(f, &err)
+			if _, isDefer := in.Site.(*ssa.Defer); !isDefer || !cellReadBackAfterDefers(a) {
+				return nil
+			}
+		case *ssa.FreeVar:
+			// called from a function literal that captured the result
+			if !readBackAfterDefers(a) {
+				return nil
+			}
+		default:
+			return nil
+		}
+		sites++
+	}
+	if sites == 0 {
+		return nil
+	}
+	return out
+}
+
 func (c *Ctx) closureReportsError(fn *ssa.Function, start *ssa.BasicBlock, e ssa.Value) bool {
+	outP := c.errOutParam(fn)
+	isCell := func(addr ssa.Value) bool {
+		if fv, isFree := addr.(*ssa.FreeVar); isFree {
+			return readBackAfterDefers(fv)
+		}
+		return outP != nil && addr == ssa.Value(outP)
+	}
 	cut := map[ir.Edge]bool{}
 	storeBlocks := map[int]bool{}
 	for _, b := range fn.Blocks {
 		for _, i := range b.Instrs {
 			if st, ok := i.(*ssa.Store); ok {
-				if fv, isFree := st.Addr.(*ssa.FreeVar); isFree && isErrorType(st.Val.Type()) && readBackAfterDefers(fv) {
+				if isErrorType(st.Val.Type()) && isCell(st.Addr) {
 					if derivesFromErr(st.Val, e, 0) || definitelyNonNilErr(st.Val, 0) {
 						storeBlocks[b.Index] = true
 					}
@@ -741,7 +805,7 @@ func (c *Ctx) closureReportsError(fn *ssa.Function, start *ssa.BasicBlock, e ssa
 			if ifi, ok := b.Instrs[len(b.Instrs)-1].(*ssa.If); ok {
 				if v, nilWhenTrue, ok := ir.NilCheck(ifi.Cond); ok && isErrorType(v.Type()) {
 					if u, ok := v.(*ssa.UnOp); ok {
-						if _, isFree := u.X.(*ssa.FreeVar); isFree {
+						if _, isFree := u.X.(*ssa.FreeVar); isFree || outP != nil && u.X == ssa.Value(outP) {
 							// edge on which the captured error is non-nil
 							if nilWhenTrue {
 								cut[ir.Edge{From: b.Index, To: b.Succs[1].Index}] = true
@@ -808,6 +872,9 @@ func (c *Ctx) RuleC5(in func(*ssa.Function) bool) {
 	for _, fn := range c.P.LibFunctions() {
 		if hasErrorResult(fn) || fn.Signature.Results().Len() != 1 {
 			continue
+		}
+		if c.errOutParam(fn) != nil {
+			continue // reports through its *error parameter (C2 judges that), not through the value
 		}
 		instrsOf(fn, func(i ssa.Instruction) {
 			if call, ok := i.(ssa.CallInstruction); ok {
@@ -910,6 +977,12 @@ func readBackAfterDefers(fv *ssa.FreeVar) bool {
 	if !ok || cell == nil {
 		return true // not a local of the parent (nested capture): not judged here
 	}
+	return cellReadBackAfterDefers(cell)
+}
+
+// cellReadBackAfterDefers: the cell is a result of its function that is read
+// back after the deferred calls ran.
+func cellReadBackAfterDefers(cell *ssa.Alloc) bool {
 	parent := cell.Parent()
 	for _, b := range parent.Blocks {
 		ret, isRet := b.Instrs[len(b.Instrs)-1].(*ssa.Return)
